@@ -114,6 +114,23 @@ CHECKS = {
             "steps COMPLETED, no task pending.",
             "max_retries exceeds the failures of a plan; idle-only sub-space of schedules for most plans, full model for 1-3; "
             "<= 2 deviations.", "3/C16"),
+    "C17": ("fault_enumeration", "E1", E1 + "; failure counts 1..limit+2 per (job, phase) enumerated for every retry limit",
+            "Same harness: job shapes x max_retries {1,2,3,5} x every (job, phase, soft|fail-stop, count 1..limit+2), and the "
+            "DummyFailureManager with one failure, under the default schedule and every schedule within the deviation bound "
+            "around the limit; oracle: no command runs more than max_retries times, count >= limit => run() raises with every "
+            "step terminated and nothing pending, count < limit => success, never a hang.",
+            "Fail-stop faults lose only the failing job's own directories (no other job consumes retry budget).", "3/C17"),
+    "C18": ("fault_enumeration", "E1", E1 + "; execution counts compared with a reference derived from the plan and the workflow graph",
+            "The fault plans and schedules of C16; per execution the number of command runs of every job must be 1 + its own "
+            "execute-phase failures unless its output directory was deleted by a fault AND it is an ancestor of a failed job; "
+            "soft plans allow no surplus run.",
+            "Ancestry from the harness' program description, not from the database; hung/raising executions are C16/C17's.", "3/C18"),
+    "C19": ("fault_enumeration", "E1", E1 + "; concurrent fail-stop faults sharing a lost producer; both lock orders",
+            "A->scatter(n) B_i->gather->C and diamond over files: 2..n consumers fail fail-stop in the same run after the "
+            "producer's output was lost once; both lock orders of _recover; every schedule within the per-case bound; oracle: "
+            "all recoveries terminate, outputs equal the failure-free run, every job runs at most 1 + own failures + losses.",
+            "n <= 3 (quick) / 6 (thorough); the data is lost once (copies regenerated by a running recovery are not deleted "
+            "again; that harsher scenario is in C16's 'lose' variants).", "3/C19"),
 }
 
 NOT_YET = "check not built yet in this session (planned, see DESIGN.md section 3); no claim is made"
